@@ -360,6 +360,9 @@ def r6(ctx, R):
     for n in ctx.m.walk_own(f.node):
         if isinstance(n, ast.Return) and isinstance(n.value, ast.Tuple):
             returned |= {e.id for e in n.value.elts if isinstance(e, ast.Name)}
+        elif isinstance(n, ast.Return) and isinstance(n.value, ast.Call) and isinstance(n.value.func, ast.Name) and n.value.func.id[:1].isupper():
+            # a record (NamedTuple / dataclass) built from the same locals
+            returned |= {e.id for e in list(n.value.args) + [kw.value for kw in n.value.keywords] if isinstance(e, ast.Name)}
     arms = []
     for n in ctx.m.walk_own(f.node):
         if isinstance(n, ast.If) and isinstance(n.test, ast.Attribute) and n.test.attr == "fixed":
